@@ -107,7 +107,8 @@ PROPS['C11'] = Prop('C11', harness='c11', entries=['c11rt', 'm1c', 'm1c_h', 'm1c
 PROPS['C16'] = m1prop('C16', 'theories/Props/C16.v', ['C16', 'panic'], spec_entries=['m1c_fresh'],
                       extra=scenario_extra(('C16-send-racing-stop', 5, 'real sockets: 4 goroutines send on a charge point while Stop is called, 40 rounds; nothing may crash or block (F10)'),
                                             ('C16-stale-ready-token-after-restart', 11, 'gated: Stop arrives while a ready token is unconsumed (pump held in the cancel callback), 12 tries; after Start the first request is written exactly once (F31)'),
-                                            ('C16-stale-conclusion-after-restart', 12, 'gated: Stop arrives while a conclusion waits for the busy callback routine, 12 tries; after Start the first callback gets its own reply (F32)')))
+                                            ('C16-stale-conclusion-after-restart', 12, 'gated: Stop arrives while a conclusion waits for the busy callback routine, 12 tries; after Start the first callback gets its own reply (F32)'),
+                                            ('C16-reconnection-attempt-after-stop', 18, 'ws client, real sockets, gated through ws.SetLogger: Stop while a connection loss is being handled (forced close picked up, cleanup not yet run); after Stop has returned no dial, no connection, no reconnected callback')))
 
 M1_NOTE = 'Trusted: Coq kernel + vm_compute, extraction (ExtrOcamlBasic only), the Go harness with its ws doubles and quiescence detector, the hand-written LTS. Interleavings finer than one handler / one pump iteration are not in this model (DESIGN.md section 8).'
 MANIFEST_TEXT['C01'] = dict(
@@ -249,7 +250,8 @@ PROPS['C17'] = Prop('C17', harness='c17', entries=['c17', 'c17k'], props_file='t
                                  'keep-alive: the theorems are about the deadline bookkeeping over a virtual clock; timer accuracy, gorilla, the kernel are outside the model (real-time scenarios check detection within wait + 750 ms)',
                                  'a Stop racing the instant the back-off delay elapses (both select arms ready) is not forced by the harness'],
                     rule='label sequences over {start, connection loss (TCP reset, or close frame 1000 / 1001 sent by the server), dial fails, dial succeeds, stop} on the real ws client against a raw loopback server with parked dials: a corpus (first retry succeeds, four failed retries, stopped-and-restarted client, stop during a dial that fails / succeeds, loss by a close frame 1000 / 1001 from the server) plus seeded random sequences (quick 10, thorough 150), compared with the model (handler trace, number of dials, final phase); 6 real-time keep-alive scenarios (peer stops answering pings; healthy idle connection; server side: silent client, pinging client; server with its own pings: client that never answers, client that answers) judged by a monitor',
-                    design_ref='5 C17', monitor_prefixes=['C17'], confirm_slow=True, harness_timeout=3000, spec_entries=['c17'])
+                    design_ref='5 C17', monitor_prefixes=['C17'], confirm_slow=True, harness_timeout=3000, spec_entries=['c17'],
+                    extra=scenario_extra(('C17-reconnection-attempt-after-stop', 18, 'ws client, real sockets, gated through ws.SetLogger: Stop while a connection loss is being handled; after Stop has returned no dial, no connection, no reconnected callback')))
 MANIFEST_TEXT['C17'] = dict(
     text='Coq theorems on the reconnection machine: any number of failed dials keeps the loop going; back-off doubled (plus the random range) for the first repeat attempts then constant; a restarted client has no stale abort signal (repaired F7); once idle only Start connects; Stop during a dial ends the loop whether that dial fails or succeeds (a connection established after Stop is dropped: repaired F26), and from a Stop on, until the next Start, no sequence of losses, dials and further Stops makes the client connected; keep-alive deadline bookkeeping (silent peer detected by last activity + wait, healthy peer never dropped). The machine is compared with the real client against a raw loopback server with parked dials; keep-alive runs in real time under a monitor.',
     note='Trusted: Coq kernel, extraction, harness; gorilla/websocket, timers and TCP are exercised, not verified. Partial as stated in DESIGN.md: the runtime half of the property (timers firing, the network noticing a reset) is observed, not proved.',
